@@ -9,7 +9,7 @@
 From DepsDev Require Import Lib.Base Lib.Sx Semver.Version Semver.Maven Semver.Gem Semver.Pep440 Semver.Compare
      Semver.Token Semver.Span Semver.Interval Semver.Set Semver.Constraint Extract.CasesSemver.
 (* the boolean side conditions of the _partial theorems (only their definitions are used here) *)
-From DepsDev Require Semver.Set_proofs Semver.Inter_proofs.
+From DepsDev Require Semver.Set_proofs Semver.Inter_proofs Semver.C11_region.
 Local Open Scope Z_scope.
 
 (* ---------------------------------------------------------------- the need code *)
@@ -397,7 +397,7 @@ Definition setrt_body (tbl : table) (sys : system) (st : set) (probes : list sx)
                                                    | Some x => b0 <- match_version_prerelease x v;; Ok (sx_bool b0) end);;
                                 Ok (SL [sx_bool oi; ri])
                             end) ps;;
-  Ok (SL [SB sym_ok; SB s1; r; SL rows]).
+  Ok (SL [SB sym_ok; SB s1; r; SL rows; sx_bool (C11_region.c11_region (pv_of tbl) sys st)]).
 
 Definition k_creqseq : bytes := [99;114;101;113;115;101;113]%N.
 
